@@ -153,7 +153,7 @@ func (sc *Scenario) RunOnce(ch *vx.Chooser, keepLog bool) (res *ExecResult) {
 		if len(opts) == 0 {
 			break
 		}
-		if !sc.NoPrune && ch.Seen(func() string { return w.Key(sc.KeyResponses) + st.key() }) {
+		if !sc.NoPrune && ch.Seen(func() string { return w.Key(sc.KeyResponses, sc.Bound >= 0) + st.key() }) {
 			return
 		}
 		labels := make([]string, len(opts))
